@@ -209,7 +209,11 @@ def explore(run, prune=None, max_paths=4096):
     """run(ctx) executes one path. Returns list of (ctx, result) for all feasible paths."""
     work = [[]]
     out = []
+    import time as _time, os as _os
+    t_end = _time.time() + float(_os.environ.get("VERIF_EXPLORE_SECONDS", "420"))
     while work:
+        if _time.time() > t_end:
+            raise Unsupported("path exploration exceeded its time budget after %d paths (%d pending): symbolic branching explodes here" % (len(out), len(work)))
         dec = work.pop()
         ctx = Ctx(dec, prune)
         ctx.aborted = False
